@@ -1,7 +1,46 @@
 #!/opt/veriftools/pyvenv/bin/python
-import json, jsonschema, glob, sys
-jsonschema.validate(json.load(open('/verif/MANIFEST.json')), json.load(open('/root/.vp/MANIFEST.schema.json')))
+"""Self-check of the interface files: MANIFEST.json and every evidence file validate against the
+schemas, every claimed check has an evidence file whose property_id / level agree with the manifest,
+a proof-level record has discharged == obligations, and MANIFEST.json is what gen_manifest.py would
+write now (so an edit of a harness's metadata cannot silently change the level)."""
+import json, jsonschema, glob, os, sys
+V = os.path.dirname(os.path.dirname(os.path.abspath(__file__)))
+sys.path.insert(0, os.path.join(V, "driver"))
+import main  # noqa: E402
+bad = []
+man = json.load(open(os.path.join(V, 'MANIFEST.json')))
+jsonschema.validate(man, json.load(open('/root/.vp/MANIFEST.schema.json')))
 s = json.load(open('/root/.vp/EVIDENCE.schema.json'))
-for f in sorted(glob.glob('/verif/evidence/*.json')):
-    jsonschema.validate(json.load(open(f)), s)
-print('manifest and', len(glob.glob('/verif/evidence/*.json')), 'evidence files valid')
+allh = main.discover()
+props = [json.loads(l)["id"] for l in open(os.path.join(V, "properties.jsonl"))]
+claimed = [c["property_id"] for c in man["checks"]]
+na = [n["property_id"] for n in man.get("not_applicable", [])]
+if sorted(claimed + na) != sorted(props):
+    bad.append("claimed + not_applicable is not exactly the property list")
+for c in man["checks"]:
+    p = c["property_id"]
+    cat = c["level_claimed"]["category"]
+    if cat != main.claimed_category(allh, p):
+        bad.append(f"{p}: MANIFEST category {cat} but the harness metadata gives {main.claimed_category(allh, p)} (re-run tools/gen_manifest.py)")
+    f = os.path.join(V, c["evidence_file"])
+    if not os.path.exists(f):
+        bad.append(f"{p}: no evidence file")
+        continue
+    ev = json.load(open(f))
+    try:
+        jsonschema.validate(ev, s)
+    except jsonschema.ValidationError as e:
+        bad.append(f"{p}: evidence invalid: {e.message}")
+    if ev["property_id"] != p:
+        bad.append(f"{p}: evidence property_id {ev['property_id']}")
+    if ev["level"] != cat:
+        bad.append(f"{p}: evidence level {ev['level']} != MANIFEST category {cat}")
+    cov = ev["coverage"]
+    if ev["level"] == "proof" and cov.get("obligations") != cov.get("discharged"):
+        bad.append(f"{p}: proof-level record with discharged != obligations")
+    if cov.get("distinct_nontrivial", 0) < 2 or not cov.get("samples"):
+        bad.append(f"{p}: thin coverage record")
+for b in bad:
+    print("INVALID:", b)
+print('manifest and', len(claimed), 'evidence files checked:', 'OK' if not bad else 'PROBLEMS')
+sys.exit(1 if bad else 0)
